@@ -777,5 +777,5 @@ v("c15-db-auto-key-without-table-probe", "C15", "db_space.py",
 v("c16-pandas-fill-not-for-inner", "C16", PB,
   "        for c in common_cols:\n            if c not in merged_key_cols:\n                is_null = res[c].isnull()\n                res.loc[is_null, c] = res.loc[is_null, c + \"_tmp_right_col\"]",
   "        for c in common_cols:\n            if c not in merged_key_cols:\n                is_null = res[c].isnull()\n                if op.jointype != \"INNER\":\n                    res.loc[is_null, c] = res.loc[is_null, c + \"_tmp_right_col\"]")
-v("c27-mean-allowed-in-ordered-window", "C27", "expr_rep.py", "    \"max\",\n    \"mean\",\n    \"median\",\n    \"min\",", "    \"max\",\n    \"median\",\n    \"min\",")
+v("c27-mean-allowed-in-ordered-window", "C27", "expr_rep.py", "    \"count\",\n    \"max\",\n    \"mean\",\n    \"median\",\n    \"min\",\n    \"nunique\",\n    \"prod\",", "    \"count\",\n    \"max\",\n    \"median\",\n    \"min\",\n    \"nunique\",\n    \"prod\",")
 v("c12-sqlnode-not-in-eval-env", "C12", "expr_parse_fn.py", "    TableDescription,\n    SQLNode,\n)", "    TableDescription,\n)")
